@@ -1,15 +1,27 @@
 (* driver for the RawKV model: replays the Go driver's OP lines on the extracted model
-   (one model store per sequence), prints MISMATCH lines and statistics. *)
-let hexraw (l : n list) : string = if l = [] then "" else hex_of_bytes l
+   (one model store per sequence and column family), prints MISMATCH lines and statistics. *)
+let bx (s : string) : n list =
+  (* hex, "-" = empty, "*<n>x<hh>" = n copies of byte hh *)
+  if String.length s > 0 && s.[0] = '*' then
+    Scanf.sscanf s "*%dx%2x" (fun cnt b -> List.init cnt (fun _ -> byte_tab.(b)))
+  else bytes_of_hex s
+let rle (l : n list) : string option =
+  match l with
+  | [] -> None
+  | b :: _ -> let len = List.length l in
+      if len >= 32 && List.for_all (fun x -> x = b) l then Some (Printf.sprintf "*%dx%02x" len (int_of_n b)) else None
+let hx (l : n list) : string = match rle l with Some r -> r | None -> hex_of_bytes l
+let hexraw (l : n list) : string = if l = [] then "" else hx l
 let optv (o : n list option) : string = match o with None -> "N" | Some v -> "V" ^ hexraw v
-let hxs (l : n list list) : string = if l = [] then "." else String.concat "," (List.map hex_of_bytes l)
-let split_on c s = if s = "." || s = "none" then [] else String.split_on_char c s
-let keys_of s = List.map bytes_of_hex (split_on ',' s)
-let layouts_of s = (* "L=a,b;c" *)
+let hxs (l : n list list) : string = if l = [] then "." else String.concat "," (List.map hx l)
+let split_on c s = if s = "." || s = "none" || s = "" then [] else String.split_on_char c s
+let keys_of s = List.map bx (split_on ',' s)
+(* "L=a,b;c;FAIL": layouts seen by the served RPCs, FAIL = an injected failing request *)
+let layouts_of s : n list list option list =
   let s = String.sub s 2 (String.length s - 2) in
-  if s = "none" then [] else List.map (fun l -> keys_of l) (String.split_on_char ';' s)
-let rec nat_of_int_big i = nat_of_int i
+  if s = "none" then [] else List.map (fun l -> if l = "FAIL" then None else Some (keys_of l)) (String.split_on_char ';' s)
 let rec firstn k l = if k <= 0 then [] else match l with [] -> [] | x :: r -> x :: firstn (k-1) r
+let rec somes l = match l with [] -> [] | Some x :: r -> x :: somes r | None :: r -> somes r
 
 (* crc64-ECMA as hash/crc64 computes it (reflected, poly 0xC96C5795D7870F42) *)
 let crc_tab : int64 array =
@@ -25,8 +37,9 @@ let crc64 (bs : int list) : int64 =
     let idx = Int64.to_int (Int64.logand (Int64.logxor !c (Int64.of_int b)) 0xFFL) in
     c := Int64.logxor crc_tab.(idx) (Int64.shift_right_logical !c 8)) bs;
   Int64.lognot !c
+let prefix : int list ref = ref []   (* API v2: the keyspace prefix is part of the stored key *)
 let digest (k : n list) (v : n list) : n =
-  let bs = List.map int_of_n (k @ v) in
+  let bs = !prefix @ List.map int_of_n (k @ v) in
   n_of_hex (Printf.sprintf "%Lx" (crc64 bs))
 
 (* the loop must finish on exactly the layouts of the served RPCs: it finishes on all n of them
@@ -43,59 +56,112 @@ let kvres (ps : (n list * n list) list) : string =
   "ok " ^ hxs (List.map fst ps) ^ " " ^
   (if ps = [] then "." else String.concat "," (List.map (fun p -> "V" ^ hexraw (snd p)) ps))
 
-let all_served : n list -> bool = fun _ -> true
+let contains (s : string) (sub : string) : bool =
+  let n = String.length s and m = String.length sub in
+  let rec go i = i + m <= n && (String.sub s i m = sub || go (i + 1)) in go 0
+
+(* key lists of the sub-batches the model sends under one layout, as a sorted list of strings *)
+let model_batches ch l0 keys : string list =
+  List.sort compare (List.map (fun b -> hxs (snd b)) (sub_batches ch l0 keys))
 
 let () =
-  let st = ref [] in
+  let stores : (string, (n list * entry) list) Hashtbl.t = Hashtbl.create 8 in
+  let get_st cf = try Hashtbl.find stores cf with Not_found -> [] in
+  let nonatomic = ref false in
   let nops = ref 0 and mism = ref 0 in
   let counts = Hashtbl.create 64 in
   let bump k = Hashtbl.replace counts k (1 + (try Hashtbl.find counts k with Not_found -> 0)) in
   read_lines (fun line ->
     match split_tab line with
-    | "SEQ" :: _ -> st := []
+    | "SEQ" :: _ :: js :: _ ->
+        Hashtbl.reset stores; nonatomic := contains js "\"nonatomic\":true";
+        prefix := [];
+        if contains js "\"api\":\"v2\"" then begin
+          let re = Str.regexp "\"ksid\":\\([0-9]+\\)" in
+          let id = (try ignore (Str.search_forward re js 0); int_of_string (Str.matched_group 1 js) with Not_found -> 0) in
+          prefix := [Char.code 'r'; (id lsr 16) land 255; (id lsr 8) land 255; id land 255]
+        end
     | "OP" :: id :: idx :: name :: rest ->
         let rec split acc l = match l with
-          | x :: r when String.length x >= 2 && String.sub x 0 2 = "L=" -> (List.rev acc, x, r)
+          | x :: r when String.length x >= 2 && String.sub x 0 2 = "C=" -> (List.rev acc, x, r)
           | x :: r -> split (x :: acc) r
-          | [] -> (List.rev acc, "L=none", []) in
-        let (args, lf, tail) = split [] rest in
+          | [] -> (List.rev acc, "C=CF_DEFAULT", []) in
+        let (args, cff, tail) = split [] rest in
+        let cf = String.sub cff 2 (String.length cff - 2) in
+        let lf = List.nth tail 0 and bf = List.nth tail 1 and nf = List.nth tail 2 in
         let impl = List.nth tail (List.length tail - 1) in
-        let ls = layouts_of lf in
+        let lso = layouts_of lf in
+        let ls = somes lso in
+        let failed = List.exists (fun x -> x = None) lso in
         let l0 = match ls with l :: _ -> l | [] -> [] in
+        let bats = let s = String.sub bf 2 (String.length bf - 2) in if s = "none" then [] else String.split_on_char ';' s in
+        let (rerrs, warm) = (match String.split_on_char ',' (String.sub nf 2 (String.length nf - 2)) with
+          | [_; e; x] -> (int_of_string e, x = "1") | [_; e] -> (int_of_string e, false) | _ -> (0, false)) in
+        let st = get_st cf in
+        let set s = Hashtbl.replace stores cf s in
         let arg i = List.nth args i in
+        let exact = (warm && rerrs = 0 && not failed) in
+        let cmp_batches ch keys ok =
+          if not exact then ok else
+          let got = List.sort compare (List.map (fun b -> hxs (List.map (fun it -> bx (List.hd (String.split_on_char ':' it))) (split_on ',' b))) bats) in
+          let want = model_batches ch l0 keys in
+          if got = want then ok else "model-batches " ^ String.concat ";" want in
         let m = (try
           match name with
-          | "put" -> st := srv_put !st (bytes_of_hex (arg 0)) (bytes_of_hex (arg 1)) (n_of_int (int_of_string (arg 2))); "ok"
-          | "get" -> "ok " ^ optv (srv_get !st (bytes_of_hex (arg 0)))
-          | "del" -> st := st_del !st (bytes_of_hex (arg 0)); "ok"
+          | "put" -> set (srv_put st (bx (arg 0)) (bx (arg 1)) (n_of_int (int_of_string (arg 2)))); "ok"
+          | "get" -> "ok " ^ optv (srv_get st (bx (arg 0)))
+          | "ttl" -> "err unsupported"   (* mocktikv has no CmdGetKeyTTL *)
+          | "del" -> set (st_del st (bx (arg 0))); "ok"
           | "bput" ->
               let ks = keys_of (arg 0) and vs = keys_of (arg 1) in
               let ts = if arg 2 = "." then List.map (fun _ -> 0) ks else List.map int_of_string (String.split_on_char ',' (arg 2)) in
               let kvs = List.map2 (fun (k, v) t -> (k, { e_val = v; e_ttl = n_of_int t })) (List.combine ks vs) ts in
-              (match batch_put !st [(l0, all_served)] kvs with Some s -> st := s; "ok" | None -> "model-none")
+              if failed then begin
+                (* the call returned an error: the store holds exactly the batches that were served *)
+                let pairs b = List.map (fun it -> match String.split_on_char ':' it with
+                  | [k; v; t] -> (bx k, { e_val = bx v; e_ttl = n_of_int (int_of_string t) }) | _ -> failwith "bput batch") (split_on ',' b) in
+                set (List.fold_left (fun s b -> srv_batch_put s (pairs b)) st bats); "err injected"
+              end else
+              (match batch_put st [(l0, all_served)] kvs with
+               | Some (s, true) -> set s; cmp_batches (put_chunks kvs) (List.map fst kvs) "ok"
+               | _ -> "model-none")
           | "bget" ->
-              (match batch_get !st [(l0, all_served)] (keys_of (arg 0)) with
-               | Some vs -> "ok " ^ (if vs = [] then "." else String.concat "," (List.map optv vs))
-               | None -> "model-none")
+              (match batch_get st [(l0, all_served)] (keys_of (arg 0)) with
+               | Some (Some vs) -> cmp_batches key_chunks (keys_of (arg 0)) ("ok " ^ (if vs = [] then "." else String.concat "," (List.map optv vs)))
+               | _ -> "model-none")
           | "bdel" ->
-              (match bdel_rounds !st [(l0, all_served)] (keys_of (arg 0)) with Some s -> st := s; "ok" | None -> "model-none")
+              if failed then begin
+                set (List.fold_left (fun s b -> srv_batch_delete s (keys_of b)) st bats); "err injected"
+              end else
+              (match bdel_rounds st [(l0, all_served)] (keys_of (arg 0)) with
+               | Some (s, true) -> set s; cmp_batches key_chunks (keys_of (arg 0)) "ok"
+               | _ -> "model-none")
           | "drange" ->
-              (match run_loop ls (fun l -> drange_loop !st l (bytes_of_hex (arg 0)) (bytes_of_hex (arg 1))) with
-               | Ok s -> st := s; "ok" | Error e -> e)
+              if failed then
+                (match drange_run st lso (bx (arg 0)) (bx (arg 1)) with
+                 | DrFailed (s, _) -> set s; "err injected"
+                 | DrDone _ -> "model-done-before-the-failing-request"
+                 | DrFuel -> "model-needs-more-iterations")
+              else
+              (match run_loop ls (fun l -> drange_loop st l (bx (arg 0)) (bx (arg 1))) with
+               | Ok s -> set s; "ok" | Error e -> e)
           | "scan" ->
-              (match run_loop ls (fun l -> scan !st l (bytes_of_hex (arg 0)) (bytes_of_hex (arg 1)) (nat_of_int (int_of_string (arg 2)))) with
+              (match run_loop ls (fun l -> scan st l (bx (arg 0)) (bx (arg 1)) (nat_of_int (int_of_string (arg 2)))) with
                | Ok ps -> kvres ps | Error e -> e)
           | "rscan" ->
-              (match run_loop ls (fun l -> rscan !st l (bytes_of_hex (arg 0)) (bytes_of_hex (arg 1)) (nat_of_int (int_of_string (arg 2)))) with
+              (match run_loop ls (fun l -> rscan st l (bx (arg 0)) (bx (arg 1)) (nat_of_int (int_of_string (arg 2)))) with
                | Ok ps -> kvres ps | Error e -> e)
           | "cksum" ->
-              (match run_loop ls (fun l -> cksum digest !st l (bytes_of_hex (arg 0)) (bytes_of_hex (arg 1))) with
-               | Ok c -> Printf.sprintf "ok %s %d %d" (hex_of_n c.c_xor) (int_of_n c.c_kvs) (int_of_n c.c_bytes)
+              (* handleKvRawChecksum reads column family CF_DEFAULT whatever the client says *)
+              (match run_loop ls (fun l -> cksum digest (get_st "CF_DEFAULT") l (bx (arg 0)) (bx (arg 1))) with
+               | Ok c -> Printf.sprintf "ok %s %d %d" (hex_of_n c.c_xor) (int_of_n c.c_kvs)
+                           (int_of_n c.c_bytes + List.length !prefix * int_of_n c.c_kvs)  (* "including prefix in APIV2" *)
                | Error e -> e)
           | "cas" ->
-              let prev = if arg 1 = "N" then None else Some (bytes_of_hex (let s = arg 1 in let h = String.sub s 1 (String.length s - 1) in if h = "" then "-" else h)) in
-              (match srv_cas !st (bytes_of_hex (arg 0)) prev (bytes_of_hex (arg 2)) with
-               | ((p, sw), s') -> st := s'; Printf.sprintf "ok %s %d" (optv p) (if sw then 1 else 0))
+              if !nonatomic then "err atomic" else
+              let prev = if arg 1 = "N" then None else Some (bx (let s = arg 1 in let h = String.sub s 1 (String.length s - 1) in if h = "" then "-" else h)) in
+              (match srv_cas st (bx (arg 0)) prev (bx (arg 2)) with
+               | ((p, sw), s') -> set s'; Printf.sprintf "ok %s %d" (optv p) (if sw then 1 else 0))
           | _ -> "unknown-op"
           with e -> "model-exception " ^ Printexc.to_string e) in
         incr nops;
@@ -103,7 +169,8 @@ let () =
         bump (name ^ ":" ^ cls);
         if m <> impl then begin
           incr mism;
-          if !mism <= 200 then print_endline (String.concat "\t" ["MISMATCH"; id; idx; name; "model=" ^ m; "impl=" ^ impl])
+          let short s = if String.length s > 600 then String.sub s 0 600 ^ "..." else s in
+          if !mism <= 200 then print_endline (String.concat "\t" ["MISMATCH"; id; idx; name; "model=" ^ short m; "impl=" ^ short impl])
         end
     | _ -> ());
   Printf.printf "STATS\tops=%d\tmismatches=%d\n" !nops !mism;
